@@ -5,27 +5,41 @@ specification side (member -> key the CTAP specification assigns, required / opt
 rustc's macro expansion of /repo on every run (vx/expand.py)."""
 import os
 SPEC = {
- # unit: (module, struct, CTAP reference, options type, [(field, key, kind)])   kind: r = always present, o = optional (omitted when absent)
+ # unit: (module, struct, CTAP reference, [(field, key, kind, type)])
+ #   kind: r = required, always present; o = optional (an Option: omitted when absent, absent reads back as None);
+ #         d = always serialised, but may be absent on input and then takes its default
  "swgaq": ("ctap2::get_assertion", "Request", "CTAP 2.1, 6.2 authenticatorGetAssertion, request parameters",
-           [("rp_id", 1, "r"), ("client_data_hash", 2, "r"), ("allow_list", 3, "o"), ("extensions", 4, "o"), ("options", 5, "r"), ("pin_auth", 6, "o"), ("pin_protocol", 7, "o")]),
+           [("rp_id", 1, "r", "String"), ("client_data_hash", 2, "r", "Bytes"), ("allow_list", 3, "o", "Option<Vec<PublicKeyCredentialDescriptor>>"), ("extensions", 4, "o", "Option<ExtensionInputs>"),
+            ("options", 5, "d", "Options"), ("pin_auth", 6, "o", "Option<Bytes>"), ("pin_protocol", 7, "o", "Option<u8>")]),
  "swgar": ("ctap2::get_assertion", "Response", "CTAP 2.1, 6.2 authenticatorGetAssertion, response members (unsignedExtensionOutputs: CTAP 2.2)",
-           [("credential", 1, "o"), ("auth_data", 2, "r"), ("signature", 3, "r"), ("user", 4, "o"), ("number_of_credentials", 5, "o"), ("user_selected", 6, "o"), ("large_blob_key", 7, "o"), ("unsigned_extension_outputs", 8, "o")]),
+           [("credential", 1, "o", "Option<PublicKeyCredentialDescriptor>"), ("auth_data", 2, "r", "AuthenticatorData"), ("signature", 3, "r", "Bytes"), ("user", 4, "o", "Option<PublicKeyCredentialUserEntity>"),
+            ("number_of_credentials", 5, "o", "Option<u8>"), ("user_selected", 6, "o", "Option<bool>"), ("large_blob_key", 7, "o", "Option<Bytes>"), ("unsigned_extension_outputs", 8, "o", "Option<UnsignedExtensionOutputs>")]),
  "swmcq": ("ctap2::make_credential", "Request", "CTAP 2.1, 6.1 authenticatorMakeCredential, request parameters",
-           [("client_data_hash", 1, "r"), ("rp", 2, "r"), ("user", 3, "r"), ("pub_key_cred_params", 4, "r"), ("exclude_list", 5, "o"), ("extensions", 6, "o"), ("options", 7, "r"), ("pin_auth", 8, "o"), ("pin_protocol", 9, "o")]),
+           [("client_data_hash", 1, "r", "Bytes"), ("rp", 2, "r", "PublicKeyCredentialRpEntity"), ("user", 3, "r", "webauthn::PublicKeyCredentialUserEntity"), ("pub_key_cred_params", 4, "r", "Vec<webauthn::PublicKeyCredentialParameters>"),
+            ("exclude_list", 5, "o", "Option<Vec<webauthn::PublicKeyCredentialDescriptor>>"), ("extensions", 6, "o", "Option<ExtensionInputs>"), ("options", 7, "d", "Options"), ("pin_auth", 8, "o", "Option<Bytes>"), ("pin_protocol", 9, "o", "Option<u8>")]),
  "swmcr": ("ctap2::make_credential", "Response", "CTAP 2.1, 6.1 authenticatorMakeCredential, response members (unsignedExtensionOutputs: CTAP 2.2)",
-           [("fmt", 1, "r"), ("auth_data", 2, "r"), ("att_stmt", 3, "r"), ("ep_att", 4, "o"), ("large_blob_key", 5, "o"), ("unsigned_extension_outputs", 6, "o")]),
+           [("fmt", 1, "r", "String"), ("auth_data", 2, "r", "AuthenticatorData"), ("att_stmt", 3, "r", "ciborium::value::Value"), ("ep_att", 4, "o", "Option<bool>"), ("large_blob_key", 5, "o", "Option<Bytes>"),
+            ("unsigned_extension_outputs", 6, "o", "Option<UnsignedExtensionOutputs>")]),
  "swgi": ("ctap2::get_info", "Response", "CTAP 2.1, 6.4 authenticatorGetInfo, response members",
-          [("versions", 1, "r"), ("extensions", 2, "o"), ("aaguid", 3, "r"), ("options", 4, "o"), ("max_msg_size", 5, "o"), ("pin_protocols", 6, "o"), ("transports", 9, "o")]),
+          [("versions", 1, "r", "Vec<Version>"), ("extensions", 2, "o", "Option<Vec<Extension>>"), ("aaguid", 3, "r", "Aaguid"), ("options", 4, "o", "Option<Options>"), ("max_msg_size", 5, "o", "Option<NonZeroU128>"),
+           ("pin_protocols", 6, "o", "Option<Vec<u8>>"), ("transports", 9, "o", "Option<Vec<AuthenticatorTransport>>")]),
  "swhs": ("ctap2::extensions::hmac_secret", "HmacGetSecretInput", "CTAP 2.1, 12.5 hmac-secret, getAssertion input",
-          [("key_agreement", 1, "r"), ("salt_enc", 2, "r"), ("salt_auth", 3, "r"), ("pin_uv_auth_protocol", 4, "o")]),
+          [("key_agreement", 1, "r", "ciborium::value::Value"), ("salt_enc", 2, "r", "Bytes"), ("salt_auth", 3, "r", "Bytes"), ("pin_uv_auth_protocol", 4, "o", "Option<u8>")]),
 }
-OPTIONS = {"swgaq": "pub struct Options { pub rk: bool, pub up: bool, pub uv: bool }", "swmcq": "pub struct Options { pub rk: bool, pub up: bool, pub uv: bool }",
-           "swgi": "pub struct Options { pub opaque: u8 }"}
+REAL_OPTIONS = """// the request options: the real struct and its Default (passkey-types/src/ctap2/make_credential.rs); C13: "absent optional members take
+// their specified defaults (up true, rk and uv false)"
+//@ source mcsrc passkey-types/src/ctap2/make_credential.rs
+//@ extract mcsrc struct Options
+//@ extract mcsrc impl Default for Options
+impl VxDefault for Options { open spec fn vx_default() -> Self { Options { rk: false, up: true, uv: false } } }"""
+OPTIONS = {"swgaq": REAL_OPTIONS, "swmcq": REAL_OPTIONS, "swgi": "pub struct Options { pub opaque: u8 }"}
+# members decoded through a `deserialize_with` function: (unit, field) -> declared wrapper
+WITH = {("swgi", "transports"): "Option<Vec<AuthenticatorTransport>>"}
 for unit, (module, struct, ref, fields) in SPEC.items():
     d = "/verif/units/%s" % unit
     os.makedirs(d, exist_ok=True)
-    ent = " + ".join(("entry" if k == "r" else "opt_entry") + "(%d, q.%s)" % (n, f) for (f, n, k) in fields)
-    table = ", ".join("%s 0x%02x%s" % (f, n, "" if k == "r" else " (optional)") for (f, n, k) in fields)
+    ent = " + ".join(("opt_entry" if k == "o" else "entry") + "(%d, q.%s)" % (n, f) for (f, n, k, t) in fields)
+    table = ", ".join("%s 0x%02x%s" % (f, n, {"r": "", "o": " (optional)", "d": " (absent on input: default)"}[k]) for (f, n, k, t) in fields)
     opt = OPTIONS.get(unit)
     u = """// Unit V-%s: the expansion of serde_workaround! for %s::%s -- serves C13
 // The code below the `source-expanded` line is what rustc expands the macro invocation in passkey-types to, on this run.
@@ -54,9 +68,77 @@ impl serde::SerView for %s { open spec fn ser_view(&self) -> SerTree { SerTree::
 //@   makepub
 //@ extract sw impl Serialize for Ident
 //@ extract sw impl Serialize for %s
+
+// ================= deserialisation =================
+use serde::de::MapAccess;
+// which member a key names.  Integer keys: the numbers of the CTAP specification (table above), any other number in 0..255
+// names no member; a number above 255 is not a key at all (rejected).  Text keys (and byte strings holding UTF-8 text): the
+// macro also accepts a member's camelCase name (strum's EnumString, assumed: `name_ident`); any other text names no member.
+pub open spec fn ident_of_number(n: int) -> Ident { %s }
+pub uninterp spec fn name_ident(s: Seq<char>) -> Option<Ident>;
+pub open spec fn ident_of_name(s: Seq<char>) -> Ident { match name_ident(s) { Some(i) => i, None => Ident::Unknown } }
+impl serde::de::KeyView for Ident {
+    open spec fn key_view(k: DeKey) -> Option<Ident> {
+        match k {
+            DeKey::U(n) => if 0 <= n <= 255 { Some(ident_of_number(n)) } else { None },
+            DeKey::Text(s) => Some(ident_of_name(s)),
+            DeKey::Bytes(b) => Some(match spec_utf8(b) { Some(s) => ident_of_name(s), None => Ident::Unknown }),
+            DeKey::Other => None,
+        }
+    }
+}
+pub struct ParseError;
+impl TryFrom<&str> for Ident {
+    type Error = ParseError;
+    #[verifier::external_body]
+    fn try_from(s: &str) -> (r: Result<Ident, ParseError>) ensures match r { Ok(i) => name_ident(s@) == Some(i), Err(_) => name_ident(s@) is None } { unimplemented!() }
+}
+impl From<Ident> for &'static str { #[verifier::external_body] fn from(x: Ident) -> &'static str { unimplemented!() } }
+pub trait VxTryU8: Sized { spec fn vx_val(self) -> int; fn vx_try_into_u8(self) -> (r: Result<u8, ()>) ensures match r { Ok(v) => v as int == self.vx_val(), Err(_) => self.vx_val() > 255 }; }
+impl VxTryU8 for u16 { open spec fn vx_val(self) -> int { self as int } #[verifier::external_body] fn vx_try_into_u8(self) -> (r: Result<u8, ()>) { unimplemented!() } }
+impl VxTryU8 for u32 { open spec fn vx_val(self) -> int { self as int } #[verifier::external_body] fn vx_try_into_u8(self) -> (r: Result<u8, ()>) { unimplemented!() } }
+impl VxTryU8 for u64 { open spec fn vx_val(self) -> int { self as int } #[verifier::external_body] fn vx_try_into_u8(self) -> (r: Result<u8, ()>) { unimplemented!() } }
+impl VxTryU8 for u128 { open spec fn vx_val(self) -> int { self as int } #[verifier::external_body] fn vx_try_into_u8(self) -> (r: Result<u8, ()>) { unimplemented!() } }
+// no member is named twice among the first k entries, and every key is one
+pub open spec fn dup_free(e: Seq<(DeKey, int)>, k: int) -> bool
+    decreases k
+{
+    if k <= 0 { true } else { dup_free(e, k - 1) && (match <Ident as serde::de::KeyView>::key_view(e[k - 1].0) { None => false, Some(id) => id is Unknown || occ(e, k - 1, id) is None }) }
+}
+pub proof fn lemma_dup_free_prefixes(e: Seq<(DeKey, int)>)
+    ensures forall|j: int| 0 <= j <= e.len() && dup_free(e, e.len() as int) ==> #[trigger] dup_free(e, j)
+{
+    assert forall|j: int| 0 <= j <= e.len() && dup_free(e, e.len() as int) implies #[trigger] dup_free(e, j) by { lemma_dup_free_down(e, j, e.len() as int); }
+}
+pub proof fn lemma_dup_free_down(e: Seq<(DeKey, int)>, j: int, n: int)
+    requires 0 <= j <= n, dup_free(e, n)
+    ensures dup_free(e, j)
+    decreases n - j
+{ if j < n { lemma_dup_free_down(e, j, n - 1); } }
+// the value of a member: the value of the entry that names it, decoded for the member's type; absent: None
+pub open spec fn member<V>(e: Seq<(DeKey, int)>, k: int, id: Ident) -> Option<V> { match occ(e, k, id) { Some(i) => Some(de_val::<V>(e[i].1)), None => None } }
+pub mod utils { pub mod serde_workaround {
+    use crate::*;
+    //@ source swu passkey-types/src/utils/serde_workaround.rs
+    //@ extract swu fn set_if_none
+    //@ extract swu fn check_is_already_set
+} }
+//@ extract sw impl Ident
+//@ extract sw struct FieldVisitor
+//@ extract sw impl serde::de::Visitor for FieldVisitor
+//@   drop expecting
+//@   rule R34
+%s//@ extract sw struct Visitor
+//@ extract sw impl serde::de::Visitor for Visitor
+//@   drop expecting
+//@   rule R33
+//@   rule R36
+//@   rule R37
 } // verus!
 fn main() {}
-""" % (unit.upper(), module, struct, (opt + "\nimpl serde::SerView for Options { open spec fn ser_view(&self) -> SerTree { ser_of(*self) } }") if opt else "", ref, table, struct, ent, struct, struct, module, struct, struct, struct)
+""" % (unit.upper(), module, struct, (opt + "\nimpl serde::SerView for Options { open spec fn ser_view(&self) -> SerTree { ser_of(*self) } }") if opt else "", ref, table, struct, ent, struct, struct, module, struct, struct, struct,
+       " else ".join("if n == %d { Ident::%s }" % (n, f) for (f, n, k, t) in fields) + " else { Ident::Unknown }",
+       "".join("// member `%s` is decoded through a `deserialize_with` function: the wrapper the macro declares inside visit_map (rule R37)\npub struct __DeserializeWith<'de> { pub value: %s, pub lifetime: &'de () }\n" % (f, t) for ((u2, f), t) in WITH.items() if u2 == unit))
     open(os.path.join(d, "unit.rs"), "w").write(u)
     c = """# Contracts for unit V-%s, from the statement of C13: the message serialises to a map whose top-level keys are the integers
 # the CTAP specification assigns to its members, in ascending order, with absent optional members omitted.
@@ -74,5 +156,78 @@ fn Serialize for %s::serialize tags=C13
   assert_before end @entries-are-the-ctap-members serde_state.entries() =~= ctap_entries(*self)
   ensures @ctap-keys-ascending-absent-omitted r matches Ok(o) ==> out_tree(o) == SerTree::Map(Some(ctap_entries(*self).len() as usize), ctap_entries(*self))
 """ % (unit.upper(), struct)
+    E0, N = "vx_map0.rest()", "vx_map0.rest().len() as int"
+    def mem(f, t, e, n):
+        if (unit, f) in WITH:
+            return "(match occ(%s, %s, Ident::%s) { Some(i) => Some(de_val::<__DeserializeWith<'_>>(%s[i].1).value), None => None::<%s> })" % (e, n, f, e, t)
+        return "member::<%s>(%s, %s, Ident::%s)" % (t, e, n, f)
+    def val(f, k, t, e, n):
+        if (unit, f) in WITH:
+            return "v.%s == (match %s { Some(x) => x, None => <%s as VxDefault>::vx_default() })" % (f, mem(f, t, e, n), t)
+        if k == "r":
+            return "member::<%s>(%s, %s, Ident::%s) == Some(v.%s)" % (t, e, n, f, f)
+        return "v.%s == (match member::<%s>(%s, %s, Ident::%s) { Some(x) => x, None => <%s as VxDefault>::vx_default() })" % (f, t, e, n, f, t)
+    members = " && ".join(val(f, k, t, E0, N) for (f, n, k, t) in fields)
+    required = " && ".join("occ(%s, %s, Ident::%s) is Some" % (E0, N, f) for (f, n, k, t) in fields if k == "r") or "true"
+    kk = "(vx_e0.len() - map.rest().len())"
+    inv_fields = "\n".join("    invariant %s == %s" % (f, mem(f, t, "vx_e0", kk)) for (f, n, k, t) in fields)
+    c += """
+# ---- deserialisation.  Statement of C13: unknown keys in 0..255 and unknown text keys are ignored, absent optional members take
+# their defaults, a duplicated or missing required member is an error, and deserialising the bytes of a message yields it.
+fn set_if_none tags=C13
+  ret r
+  requires old(map).pending()
+  ensures @duplicate-is-an-error (*old(val)) is Some ==> r is Err
+  ensures @takes-the-value r is Ok ==> old(map).rest().len() > 0 && *final(val) == Some(de_val::<T>(old(map).rest()[0].1)) && final(map).rest() == old(map).rest().drop_first() && !final(map).pending()
+  ensures @only-those-errors ((*old(val)) is None && old(map).sound()) ==> r is Ok
+  ensures @frame final(map).sound() == old(map).sound()
+
+%(optc)sfn check_is_already_set tags=C13
+  ret r
+  ensures r is Err <==> (*val) is Some
+
+fn Ident::from_repr tags=C13
+  ret r
+  ensures @number-to-member r == (if ident_of_number(discriminant as int) is Unknown { None::<Ident> } else { Some(ident_of_number(discriminant as int)) })
+
+fn FieldVisitor::visit_u8 tags=C13
+  ret r
+  ensures @key r matches Ok(x) && <Ident as serde::de::KeyView>::key_view(DeKey::U(value as int)) == Some(x)
+fn FieldVisitor::visit_u16 tags=C13
+  ret r
+  ensures @key match <Ident as serde::de::KeyView>::key_view(DeKey::U(value as int)) { Some(i) => r matches Ok(x) && x == i, None => r is Err }
+fn FieldVisitor::visit_u32 tags=C13
+  ret r
+  ensures @key match <Ident as serde::de::KeyView>::key_view(DeKey::U(value as int)) { Some(i) => r matches Ok(x) && x == i, None => r is Err }
+fn FieldVisitor::visit_u64 tags=C13
+  ret r
+  ensures @key match <Ident as serde::de::KeyView>::key_view(DeKey::U(value as int)) { Some(i) => r matches Ok(x) && x == i, None => r is Err }
+fn FieldVisitor::visit_u128 tags=C13
+  ret r
+  ensures @key match <Ident as serde::de::KeyView>::key_view(DeKey::U(value as int)) { Some(i) => r matches Ok(x) && x == i, None => r is Err }
+fn FieldVisitor::visit_str tags=C13
+  ret r
+  ensures @key r matches Ok(x) && <Ident as serde::de::KeyView>::key_view(DeKey::Text(value@)) == Some(x)
+fn FieldVisitor::visit_bytes tags=C13
+  ret r
+  ensures @key r matches Ok(x) && <Ident as serde::de::KeyView>::key_view(DeKey::Bytes(value@)) == Some(x)
+
+fn Visitor::visit_map tags=C13
+  ret r
+  rewrite R21 `mut map: A` => `vx_map0: A`
+  prologue let mut map = vx_map0; let ghost vx_e0 = map.rest(); let ghost vx_s0 = map.sound(); proof { lemma_dup_free_prefixes(vx_e0); }
+  ensures @members-defaults-no-duplicates r matches Ok(v) ==> dup_free(%(E0)s, %(N)s) && %(required)s && %(members)s
+  ensures @well-formed-input-is-accepted (vx_map0.sound() && dup_free(%(E0)s, %(N)s) && %(required)s) ==> r is Ok
+  loop 0
+    invariant vx_e0 == vx_map0.rest() && vx_s0 == vx_map0.sound()
+    invariant !map.pending() && map.sound() == vx_s0 && map.rest().len() <= vx_e0.len() && map.rest() == vx_e0.subrange(vx_e0.len() - map.rest().len(), vx_e0.len() as int)
+    invariant dup_free(vx_e0, %(kk)s)
+    invariant forall|j: int| 0 <= j <= vx_e0.len() && dup_free(vx_e0, vx_e0.len() as int) ==> #[trigger] dup_free(vx_e0, j)
+    invariant map.rest().len() > 0 ==> (dup_free(vx_e0, vx_e0.len() as int) ==> dup_free(vx_e0, %(kk)s + 1))
+    ensures map.rest().len() == 0
+%(inv_fields)s
+    decreases map.rest().len()
+""" % dict(E0=E0, N=N, required=required, members=members, kk=kk, inv_fields=inv_fields,
+           optc=("fn Default for Options::default tags=C13\n  ret r\n  ensures @up-true-rk-uv-false r == <Options as VxDefault>::vx_default()\n\n" if OPTIONS.get(unit) == REAL_OPTIONS else ""))
     open(os.path.join(d, "contracts.vc"), "w").write(c)
     print("wrote", d)
